@@ -80,6 +80,8 @@ class Interp(ExprMixin):
         self.sync = sync or SyncTable(program)
         self.events = []
         self.lock_events = []   # (kind, cls, key, lockop, state, ctx, func)
+        self.raise_sites = []   # (func, ast.Raise, state, ctx)
+        self.unbound = []       # (function, name, line): a local read on a path on which nothing has bound it
         self.calls = []         # (callee qual, call node, ctx, func, state, argmap)
         self.exits = []         # (kind, label, state)
         self.problems = []      # analysis errors (strings)
@@ -338,6 +340,8 @@ class Interp(ExprMixin):
         return st
 
     def st_Raise(self, s, st, frame, out):
+        # the state at every explicit raise statement (what the function itself has done when it gives up)
+        self.raise_sites.append((frame.func, s, st, frame.ctx))
         if s.exc is None:
             lab = st.handling[-1] if st.handling else "*"
             out.add_raise(lab, st)
@@ -442,6 +446,12 @@ class Interp(ExprMixin):
                 if v is not None:
                     asg[a] = v
             if asg:
+                # what the path's own facts settle about the remaining (non file-system) atoms
+                for a in F.atoms_of(f):
+                    if a not in asg and a[0] not in ("probe", "callres"):
+                        v = F.implied(st.facts, a)
+                        if v is not None:
+                            asg[a] = v
                 rest = [a for a in F.atoms_of(f) if a not in asg]
                 if not rest:
                     return F.evaluate(f, asg)
